@@ -16,7 +16,7 @@ PROP = dict(
                     "Exploration, not proof."),
         level_note=("trusts the map model in harness/c10_global.c / c10_cxx.cpp and the split model in c10_path.c, gcc ASan/UBSan/LSan; "
                     "values of >= 250 bytes may be refused by the value storage (other properties), a refusal must leave the map unchanged"),
-        legs=[dict(name="c10_path", src=["c10_path.c"], libs=["mptcore"], batch=512, lsan=True,
+        legs=[dict(name="c10_path", memcheck=1500, src=["c10_path.c"], libs=["mptcore"], batch=512, lsan=True,
                    floors={"mpt_path_set": 30000, "mpt_path_next": 300000, "mpt_path_last": 100000, "mpt_path_add": 100000,
                            "mpt_path_del": 50000, "mpt_path_addchar": 500000,
                            "elements:empty": 10000, "elements:len254": 1000, "elements:len255": 1000, "elements:len256": 1000,
